@@ -110,23 +110,26 @@ Definition check_cmd (lenient : bool) (ds : list sdirective) : cresult unit :=
   cbind (load ds) (fun b =>
   cbind (run_stage (check_proc lenient) check_init (b_days b)) (fun _ => COk tt)).
 
+(* knut check FILE with the checker the code has now *)
+Definition check_cmd_current (repaired : bool) (ds : list sdirective) : cresult unit :=
+  cbind (load ds) (fun b =>
+  cbind (run_stage (check_proc_current repaired) check_init (b_days b)) (fun _ => COk tt)).
+
 (* knut print FILE: check, then journal.Print of a freshly built journal (j.Build() is called
    twice in print.go; the checker does not modify days) *)
-Definition print_cmd (lenient : bool) (ds : list sdirective) : cresult str :=
+Definition print_cmd_pinned (lenient : bool) (ds : list sdirective) : cresult str :=
   cbind (load ds) (fun b =>
   cbind (run_stage (check_proc_current lenient) check_init (b_days b)) (fun _ =>
-  COk (print_journal (b_days b)))).
+  COk (print_journal_pinned (b_days b)))).
 
-<<<<<<< HEAD
 (* knut check FILE with the fully repaired checker (Model/Check.v, check_proc_fixed) *)
 Definition check_cmd_fixed (ds : list sdirective) : cresult unit :=
   cbind (load ds) (fun b =>
   cbind (run_stage check_proc_fixed check_init (b_days b)) (fun _ => COk tt)).
-=======
+
 (* knut print with the repaired journal.Print (JPrinter.print_day_fixed, finding
-   C09-multi-assertion); print_cmd above stays what the pinned code does *)
-Definition print_cmd_fixed (lenient : bool) (ds : list sdirective) : cresult str :=
+   C09-multi-assertion); print_cmd_pinned above stays what the pinned code does *)
+Definition print_cmd (lenient : bool) (ds : list sdirective) : cresult str :=
   cbind (load ds) (fun b =>
-  cbind (run_stage (check_proc lenient) check_init (b_days b)) (fun _ =>
-  COk (print_journal_fixed (b_days b)))).
->>>>>>> worktree-agent-aeb534cf22bd91801
+  cbind (run_stage (check_proc_current lenient) check_init (b_days b)) (fun _ =>
+  COk (print_journal (b_days b)))).
